@@ -248,3 +248,97 @@ def _stop_runtime(tree):
         if "execute" in txt or "loop_over" in txt or "write_row" in txt:
             raise PinError("Interpreter.__init__: something executes before the target validation")
     return out
+
+
+def _calls_in(node):
+    out = []
+    for n in ast.walk(node):
+        if isinstance(n, ast.Call):
+            out.append(ast.unparse(n.func))
+    return out
+
+
+@group("StopTables", "snowfakery/parse_recipe_yaml.py", ["C07"])
+def _stop_tables(tree):
+    """Where `parse_result.tables` comes from: only templates parsed as part of the recipe's own
+    statement list (and what they include) register a table."""
+    out = ""
+    pr = find_func(tree, "parse_recipe")
+    body = _body(pr)
+    tries = [s for s in body if isinstance(s, ast.Try)]
+    if len(tries) != 1:
+        raise PinError("parse_recipe: expected exactly one try block around the parse")
+    out += _str_list("parseRecipeTry", [ast.unparse(s) for s in tries[0].body],
+                     "statements of the try block of parse_recipe, in order")
+    for h in tries[0].handlers:
+        for s in h.body:
+            if not isinstance(s, ast.Raise):
+                raise PinError("parse_recipe: an exception handler does more than re-raise")
+    if tries[0].orelse or tries[0].finalbody:
+        raise PinError("parse_recipe: try block gained else/finally")
+    out += _str_list("parseRecipeCalls", sorted(set(_calls_in(pr))), "every callee of parse_recipe (sorted, unique)")
+    ta = assignments_to(pr, "tables")
+    if not ta or not isinstance(ta[-1].value, ast.DictComp):
+        raise PinError("parse_recipe: `tables` is no longer a dict comprehension over context.table_infos")
+    dc = ta[-1].value
+    if len(dc.generators) != 1 or len(dc.generators[0].ifs) != 1:
+        raise PinError("parse_recipe: tables comprehension changed shape")
+    out += _str("tablesSource", ast.unparse(dc.generators[0].iter), "what the tables comprehension iterates over")
+    out += _str("tablesFilter", ast.unparse(dc.generators[0].ifs[0]), "filter of the tables comprehension")
+    out += _str("tablesKey", ast.unparse(dc.key) + ": " + ast.unparse(dc.value), "key: value of the comprehension")
+    rets = [s for s in body if isinstance(s, ast.Return)]
+    if len(rets) != 1 or not isinstance(rets[0].value, ast.Call) or ast.unparse(rets[0].value.func) != "ParseResult" \
+            or len(rets[0].value.args) < 2:
+        raise PinError("parse_recipe: return ParseResult(options, tables, ...) changed")
+    out += _str("resultTablesArg", ast.unparse(rets[0].value.args[1]), "second positional argument of ParseResult(...)")
+    # call graph restricted to the functions through which a table can get registered
+    funcs = {}
+    for n in ast.walk(tree):
+        if isinstance(n, (ast.FunctionDef, ast.AsyncFunctionDef)):
+            funcs.setdefault(n.name, []).append(n)
+    targets = ["register_template", "parse_object_template", "include_macro", "parse_inclusions",
+               "parse_statement_list", "parse_friends", "parse_fields", "parse_field", "parse_field_value",
+               "parse_structured_value", "parse_structured_value_args"]
+    edges = []
+    for callee in targets:
+        callers = set()
+        for name, defs in funcs.items():
+            for d in defs:
+                for c in _calls_in(d):
+                    if c == callee or c.endswith("." + callee):
+                        callers.add(name)
+        edges.append(callee + " <- " + ",".join(sorted(callers)))
+    out += _str_list("registrationCallGraph", edges, "callee <- callers, for every function on a path to register_template")
+    # who writes table_infos / macros
+    writers_t, writers_m = set(), set()
+    for name, defs in funcs.items():
+        for d in defs:
+            for n in ast.walk(d):
+                if isinstance(n, (ast.Assign, ast.AugAssign)):
+                    tg = n.targets if isinstance(n, ast.Assign) else [n.target]
+                    for t in tg:
+                        if "table_infos" in ast.unparse(t):
+                            writers_t.add(name)
+                if isinstance(n, ast.Call) and "macros." in ast.unparse(n.func) and ast.unparse(n.func).split(".")[-1] in (
+                        "update", "setdefault", "__setitem__", "pop", "clear"):
+                    writers_m.add(name + ":" + ast.unparse(n.func))
+    out += _str_list("tableInfosWriters", sorted(writers_t), "functions that assign into table_infos")
+    out += _str_list("macrosWriters", sorted(writers_m), "calls that modify context.macros")
+    rt = find_func(tree, "register_template", cls="ParseContext")
+    out += _str_list("registerTemplateBody", [ast.unparse(s) for s in _body(rt)], "ParseContext.register_template")
+    # include_macro: order lookup -> cycle checks -> inclusions -> fields -> friends
+    im = find_func(tree, "include_macro")
+    tr = [s for s in _body(im) if isinstance(s, ast.Try)]
+    if len(tr) != 1:
+        raise PinError("include_macro: expected one try block")
+    out += _str_list("includeMacroExpansion", [ast.unparse(s) for s in tr[0].body], "what include_macro expands, in order")
+    pot = find_func(tree, "parse_object_template")
+    seq = [c for c in _calls_in(pot) if c in ("parse_inclusions", "parse_fields", "parse_friends", "context.register_template")]
+    order = sorted(
+        (n.lineno, n.col_offset, ast.unparse(n.func)) for n in ast.walk(pot)
+        if isinstance(n, ast.Call) and ast.unparse(n.func) in ("parse_inclusions", "parse_fields", "parse_friends", "context.register_template")
+    )
+    if len(seq) != 4:
+        raise PinError("parse_object_template: inclusions/fields/friends/register calls changed")
+    out += _str_list("objectTemplateOrder", [o[2] for o in order], "order of the registering calls in parse_object_template")
+    return out
